@@ -276,7 +276,9 @@ def execute_pool_timeout(sc) -> Outcome:
         out = c.results[0]
         p = w["p"]
         t0 = out["t0"]
-        first_op = next((op for op in world.trace if op["actor"] == c.id), None)
+        # (a close does not count: the task that gives up also runs the pool's re-assignment pass and may close an idle connection that has
+        # to make room for somebody else's request)
+        first_op = next((op for op in world.trace if op["actor"] == c.id and op["kind"] != "close"), None)
         issued = r.first_issue.get(c.id)
         if out["exc"] is not None and out["exc"]["name"] == "PoolTimeout":
             tags.append("pool-timeout")
